@@ -55,31 +55,38 @@ Proof.
 Qed.
 
 (* "not increased": the state is unchanged and the reconsume flag was not raised *)
-Definition ni (m m' : M) : Prop := stt m' = stt m /\ (rc m' = true -> rc m = true).
-Lemma ni_refl m : ni m m. Proof. split; auto. Qed.
+Definition dbom (m : M) : bool := discard_bom (mc m).
+Definition ni (m m' : M) : Prop := stt m' = stt m /\ (rc m' = true -> rc m = true) /\ dbom m' = dbom m.
+Lemma ni_refl m : ni m m. Proof. repeat split; auto. Qed.
 Lemma ni_trans m1 m2 m3 : ni m1 m2 -> ni m2 m3 -> ni m1 m3.
-Proof. intros [A B] [C D]. split; [congruence|auto]. Qed.
+Proof. intros (A & B & E) (C & D & F). repeat split; [congruence|auto|congruence]. Qed.
 Lemma ni_false m m' : ni m m' -> rc m = false -> rc m' = false.
-Proof. intros [_ B] H. destruct (rc m') eqn:E; [|reflexivity]. rewrite (B eq_refl) in H. discriminate. Qed.
+Proof. intros (_ & B & _) H. destruct (rc m') eqn:E; [|reflexivity]. rewrite (B eq_refl) in H. discriminate. Qed.
+Lemma ni_dbom m m' : ni m m' -> dbom m' = dbom m.
+Proof. intros (_ & _ & B). exact B. Qed.
 
-(* an update of the configuration that touches neither field *)
-Definition cfg_keeps (f : cfg S -> cfg S) : Prop := forall x, st (f x) = st x /\ reconsume (f x) = reconsume x.
+(* an update of the configuration that touches none of the three fields *)
+Definition cfg_keeps (f : cfg S -> cfg S) : Prop :=
+  forall x, st (f x) = st x /\ reconsume (f x) = reconsume x /\ discard_bom (f x) = discard_bom x.
 Lemma upd_ni f (m : M) : cfg_keeps f -> ni m (upd f m).
-Proof. intros H. destruct m as [cf q o k]. unfold ni, rc, stt, upd; cbn. destruct (H cf) as [A B]. rewrite A, B. auto. Qed.
+Proof.
+  intros H. destruct m as [cf q o k]. unfold ni, rc, stt, dbom, upd; cbn. destruct (H cf) as (A & B & C).
+  rewrite A, B, C. auto.
+Qed.
 Lemma upd_clear_ni (m : M) : ni m (upd (fun x => x <| reconsume := false |>) m).
-Proof. destruct m as [cf q o k]. unfold ni, rc, stt, upd; cbn. split; [reflexivity|discriminate]. Qed.
+Proof. destruct m as [cf q o k]. destruct cf. unfold ni, rc, stt, dbom, upd; cbn. repeat split; discriminate. Qed.
 Lemma emit_ni t (m : M) : ni m (emit t m).
-Proof. destruct m; split; auto. Qed.
+Proof. destruct m; repeat split; auto. Qed.
 Lemma err_ni (m : M) : ni m (err m).
 Proof. apply emit_ni. Qed.
 Lemma took_ni n (m : M) : ni m (took n m).
-Proof. destruct m; split; auto. Qed.
+Proof. destruct m; repeat split; auto. Qed.
 Lemma setq_ni q (m : M) : ni m (m <| mq := q |>).
-Proof. destruct m; split; auto. Qed.
+Proof. destruct m; repeat split; auto. Qed.
 Lemma unconsume_ni b (m : M) : ni m (unconsumeF b m).
-Proof. destruct m; split; auto. Qed.
+Proof. destruct m; repeat split; auto. Qed.
 
-Ltac keeps := intros x; destruct x; split; reflexivity.
+Ltac keeps := intros x; destruct x; repeat split; reflexivity.
 
 (* ---------------------------------------------------------------- reads *)
 Notation gpc_skipF := (@gpc_skip S (list N) fq_next).
@@ -431,6 +438,58 @@ Lemma J_ext x (m : M) : J m <-> J (ext x m).
 Proof. unfold J, rc, stt. rewrite ext_mc. tauto. Qed.
 Lemma J_inj inj (m : M) : J m -> J (m <| mq ::= app inj |>).
 Proof. destruct m; exact (fun H => H). Qed.
+
+(* ---------------------------------------------------------------- the discard_bom flag is never touched by a step *)
+Lemma emit_current_tag_db (m : M) : dbom (fst (emit_current_tagF m)) = dbom m.
+Proof.
+  unfold emit_current_tag. pose proof (ni_dbom _ _ (finish_attribute_ni m)) as H0.
+  set (m1 := finish_attributeF m) in *. rewrite <- H0. clear H0.
+  destruct (f_html fl).
+  - destruct (tag_kind (mc m1)) eqn:Ek;
+      destruct (lookup_resp (tag_name (mc m1)) (sk_resp sk)) as [[]|];
+      destruct (tag_attrs (mc m1)); destruct (tag_self (mc m1)); destruct m1 as [cf q o k0]; destruct cf; reflexivity.
+  - destruct (tag_kind (mc m1)) eqn:Ek;
+      destruct (lookup_resp (tag_name (mc m1)) (sk_resp sk)) as [[]|];
+      destruct (tag_attrs (mc m1)); destruct m1 as [cf q o k0]; destruct cf; reflexivity.
+Qed.
+Lemma do_term_db t (m : M) : dbom (fst (do_termF t m)) = dbom m.
+Proof.
+  destruct t; cbn [do_term fst]; try (destruct m as [cf q o k]; destruct cf; reflexivity).
+  - rewrite emit_current_tag_db. destruct m as [cf q o k]; destruct cf; reflexivity.
+  - destruct k; cbn [do_term fst]; rewrite emit_current_tag_db; destruct m as [cf q o k0]; destruct cf; reflexivity.
+Qed.
+Lemma exec_db b : forall c run (m : M), dbom (fst (execF b c run m)) = dbom m.
+Proof.
+  induction b as [rk k IH|set sm krun IHr kchar IHc|p e y IHy n IHn|k y IHy n IHn|k r IH|t]; intros c run m; cbn [exec].
+  - destruct rk.
+    + pose proof (ni_dbom _ _ (get_char_ni m)) as G. destruct (get_charF m) as [[c'|] m']; cbn [snd fst] in *;
+        [rewrite IH|]; exact G.
+    + destruct (peekF m); [apply IH|reflexivity].
+  - pose proof (ni_dbom _ _ (pop_ni set sm m)) as G.
+    destruct (popF set sm m) as [[|c'|r] m']; cbn [snd fst] in *; [exact G|rewrite IHc; exact G|rewrite IHr; exact G].
+  - pose proof (ni_dbom _ _ (eat_ni p e m)) as G.
+    destruct (eatF p e m) as [[[|]|] m']; cbn [snd fst] in *; [rewrite IHy; exact G|rewrite IHn; exact G|exact G].
+  - destruct (ceval_cond _ _ _ _); [apply IHy|apply IHn].
+  - rewrite IH. apply (ni_dbom _ _ (do_cmd_ni k c run m)).
+  - apply do_term_db.
+Qed.
+Lemma step_db (m : M) : dbom (fst (stepF m)) = dbom m.
+Proof.
+  unfold step. destruct (cref (mc m)) as [cr|]; [|apply exec_db].
+  pose proof (ni_dbom _ _ (cr_step_ni cr m)) as G.
+  destruct (cr_stepF cr m) as [[|cr'|chars] m1]; cbn [snd fst] in *.
+  - exact G.
+  - rewrite <- G. destruct m1 as [cf q o k]; destruct cf; reflexivity.
+  - pose proof (ni_dbom _ _ (process_char_ref_ni chars m1)) as G2.
+    destruct (process_char_refF chars m1) as [m2 bad]. cbn [fst] in *. rewrite <- G, <- G2.
+    destruct m2 as [cf q o k]; destruct cf; reflexivity.
+Qed.
+Lemma run_db fuel : forall (m : M), dbom (fst (runF fuel m)) = dbom m.
+Proof.
+  induction fuel as [|f IH]; intros m; cbn [run]; [reflexivity|].
+  pose proof (step_db m) as G. destruct (stepF m) as [m1 r]; cbn [fst] in *.
+  destruct r; try exact G. rewrite IH. exact G.
+Qed.
 
 (* on J-machines the relational run of Chunk.v is the executable loop, and the result is a J-machine again *)
 Theorem run_is_oruns_J : forall fuel (m m' : M) r, J m ->
